@@ -19,7 +19,7 @@ RULE = ("cases are trees: generator-valid eml/dataset trees tweaked so that coun
         "one warning")
 ASSUMPTIONS = [
     "equality with the reference evaluator is demanded on trees that pass validate.tree; elsewhere only totality and entry shape",
-    "masked: title words separated by whitespace other than the space; whitespace-only text; intellectualRights whose text sits only in "
+    "masked: titles on which the two readings of 'word' (separated by spaces / by any white space) disagree about the threshold; whitespace-only text; intellectualRights whose text sits only in "
     "children; userId directories other than exactly https://orcid.org that mention orcid; several physical/dataFormat/textFormat "
     "children or authentication/recordDelimiter children that differ in what they carry",
     "'any tree built from known element names' excludes unknown names and non-text content, not invalid structure",
@@ -55,7 +55,8 @@ def tweak(rng, root, ctx):
     for ds in [n for n in treegen.all_nodes(root) if n.name == "dataset" and n.find_child("references") is None]:
         for t in ds.find_all_children("title"):
             k = rng.choice([1, 3, 4, 5, 6, 9])
-            t.content = words(rng, k) if rng.random() < 0.9 else words(rng, k).replace(" ", rng.choice(["  ", "\xa0", " \xa0 "]))
+            # (sometimes wrapped the way editors and pretty-printers wrap long titles: line breaks and indentation between words)
+            t.content = words(rng, k) if rng.random() < 0.8 else words(rng, k).replace(" ", rng.choice(["  ", "\xa0", " \xa0 ", " \n      ", " \t ", "\n", " \r\n "]))
             if k in (4, 5):
                 ctx.count("title_at_threshold")
         mode = rng.choice(["keep", "absent", "text", "paras", "markdown", "inline_only", "empty_section", "nested_lists", "nested_lists"])
